@@ -269,14 +269,43 @@ def r01_5(ctx):
     for leaf in _leaves(asm["init"]):
         flushed_before = [st for st in idx.preceding_stmts(leaf) if id(st) in inside and uses(st)]
         empty_known = any((not isinstance(f, tuple)) and f.get("k") == "MethodCall" and f["method"] == "is_empty" and uses(f) for f in idx.known_true(leaf))
-        taken_apart = any((not isinstance(f, tuple)) and f.get("k") == "LetExpr" and uses(f["init"]) for f in idx.known_true(leaf))
+        taken_apart = False
+        partial = None
+        for f in idx.known_true(leaf):
+            if (not isinstance(f, tuple)) and f.get("k") == "LetExpr" and uses(f["init"]):
+                taken_apart = True
+                # a slice pattern with an ignored rest (`[first, ..]`) looks at one element and forgets the others
+                for pp in walk(f["pat"]):
+                    if pp.get("k") == "PSlice" and pp.get("mid") is not None and pp["mid"].get("k") != "PBind":
+                        partial = pat_str(f["pat"])
+        if partial:
+            taken_apart = False
         ok = uses(leaf) or bool(flushed_before) or empty_known or taken_apart
         key = "result `%s`: pending attributes are part of it" % expr_str(leaf)[:40]
         c = seen.get(key, 0)
         seen[key] = c + 1
         r.ob(key if not c else "%s #%d" % (key, c + 1), ok, C.mloc(fold, leaf),
              ("uses the accumulator" if uses(leaf) else "is an element of the accumulator (matched by `if let`)" if taken_apart else "flushed by an earlier statement of the assembly" if flushed_before else "accumulator known empty") if ok else
+             ("the pattern `%s` matches a list with further entries and only its first is used: the others are lost" % partial[:60]) if partial else
              "this result is produced without looking at `%s`: attributes collected after the last merge argument are lost" % acc["name"])
+    # with mergeProps on, every object literal built from the pending attributes is de-duplicated (class / style / listeners concatenated)
+    dd = C.role(ctx, "dedupe")
+    nlit = 0
+    for n in walk(fold["body"]):
+        if n.get("k") == "Struct" and n.get("adt") == AST + "ObjectLit":
+            pv = {f["name"]: f["e"] for f in n["fields"]}.get("props")
+            if pv is None or not uses(pv):
+                continue
+            for leaf in _leaves(pv):
+                nlit += 1
+                deduped = dd is not None and any(x.get("k") == "Call" and x.get("callee") == dd["path"] for x in walk(leaf))
+                facts = idx.known_true(leaf)
+                merge_off = any(isinstance(f, tuple) and field_path(strip_transparent(f[1])) == "self.options.merge_props" for f in facts)
+                merge_on = any((not isinstance(f, tuple)) and field_path(strip_transparent(f)) == "self.options.merge_props" for f in facts)
+                ok = deduped or merge_off
+                key = "object literal of pending attributes #%d is de-duplicated when mergeProps is on" % nlit
+                r.ob(key, ok, C.mloc(fold, leaf), "dedupe_props(..)" + (" under merge_props" if merge_on else "") if deduped else
+                     ("only reached with mergeProps off" if merge_off else "the pending attributes go into the object literal as they are: a repeated class / style / listener key is emitted twice and the later one wins"))
     return r
 
 
@@ -333,7 +362,7 @@ def r01_4(ctx):
 
 def rules(ctx):
     from ..engine import only
-    return [r01_1, r01_2, r01_3, r01_4, r01_5,
+    return [r01_1, r01_2, r01_3, r01_4, r01_5, c14.r14_6,
             only(c07.r07_6, lambda k: "transform_attrs" in k or k.startswith("JSX attribute literal"), "string attribute values"),
             c11.r11_4]
 
